@@ -35,7 +35,7 @@ vars == <<g, stage, cfg, ex, res>>
 AllDevs == {"cleanup_collision", "rename_signature", "for_loop_no_scope", "inline_const_nonref",
             "loop_break_form", "loop_state_seq_copy", "infix_neg_literal_pow", "inline_nan_inf",
             "no_default_opset", "skip_init_indent", "inline_init_key", "init_double_rename",
-            "attr_nonfinite_repr"}
+            "attr_nonfinite_repr", "dead_if_refused"}
 NoDevs == {}
 (* Deviations (onnxscript/backend/onnx_export.py), each confirmed on the real code by the conformance replay:       *)
 (*  cleanup_collision      _cleanup_variable_name is not injective ("a.b"/"a_b", "1x"/"__1x", "if"/"r_if"); the     *)
@@ -61,6 +61,9 @@ NoDevs == {}
 (*                         (IndentationError)                                                                        *)
 (*  inline_init_key        inlined initializers are stored under the renamed name and looked up under the ONNX name  *)
 (*  init_double_rename     the Constant node built for an initializer gets the renamed name and is renamed again     *)
+(*  dead_if_refused        an If node none of whose outputs is used is rendered as an `if` statement that assigns    *)
+(*                         only dead variables; the converter refuses it ("A subgraph for a test do not have any     *)
+(*                         output variable")                                                                         *)
 
 -----------------------------------------------------------------------------
 (* values: FLOAT / INT64 scalars holding integers, nan and +-inf; BOOL; Err = a value of the wrong *)
@@ -505,6 +508,34 @@ TrInits(dv) == IF IsModel /\ Len(g.inits) = 1 THEN TrInit(1, dv) ELSE <<>>
 Prebound(dv) == IF Len(g.inits) = 1 /\ Skipped(g.inits[1].id) THEN {<<Py(g.inits[1].id, dv), Tok[g.inits[1].tok].val>>} ELSE {}
 IndentBad(dv) == Has("skip_init_indent", dv) /\ IsModel /\ cfg.skip /\ Prebound(dv) = {}
 Rets(dv) == [j \in 1..Len(Outs) |-> NonRef(Outs[j], dv)]
+(* static facts about an exported program *)
+RECURSIVE Assigned(_)
+Assigned(ss) == IF ss = <<>> THEN {} ELSE
+  LET s == Head(ss) IN
+  (CASE s.s \in {"call", "infix", "const", "attrconst"} -> {s.out}
+     [] s.s = "copy" -> {s.lhs}
+     [] s.s = "pcopy" -> SeqSet(s.lhss)
+     [] s.s = "if" -> Assigned(s.th) \cup Assigned(s.el)
+     [] s.s = "loop" -> Assigned(s.body)) \cup Assigned(Tail(ss))
+ArgNames(args) == {args[j].n : j \in {i \in 1..Len(args) : args[i].a = "var"}}
+RECURSIVE Uses(_)
+Uses(ss) == IF ss = <<>> THEN {} ELSE
+  LET s == Head(ss) IN
+  (CASE s.s \in {"call", "infix"} -> ArgNames(s.args)
+     [] s.s = "copy" -> ArgNames(<<s.rhs>>)
+     [] s.s = "pcopy" -> ArgNames(s.rhss)
+     [] s.s = "attrconst" -> {ATTRN}
+     [] s.s = "if" -> ArgNames(<<s.cond>>) \cup Uses(s.th) \cup Uses(s.el)
+     [] s.s = "loop" -> ArgNames(<<s.bound>>) \cup (IF s.cond = NONE THEN {} ELSE {s.cond}) \cup Uses(s.body)
+     [] OTHER -> {}) \cup Uses(Tail(ss))
+\* an `if` none of whose assigned variables is used afterwards (live: names used after the enclosing block)
+RECURSIVE DeadIf(_, _)
+DeadIf(ss, live) == IF ss = <<>> THEN FALSE ELSE
+  LET s == Head(ss)
+      after == live \cup Uses(Tail(ss))
+  IN \/ (s.s = "if" /\ ((Assigned(s.th) \cup Assigned(s.el)) \cap after = {} \/ DeadIf(s.th, after) \/ DeadIf(s.el, after)))
+     \/ (s.s = "loop" /\ DeadIf(s.body, after \cup Uses(s.body) \cup (IF s.cond = NONE THEN {} ELSE {s.cond})))
+     \/ DeadIf(Tail(ss), live)
 \* script() needs an opset: design passes default_opset, the code relies on some opsetN.Op(...) call
 RECURSIVE HasCall(_)
 HasCall(ss) == IF ss = <<>> THEN FALSE ELSE
@@ -514,6 +545,7 @@ HasCall(ss) == IF ss = <<>> THEN FALSE ELSE
 
 Prog(params, body, rets, dv) == [params |-> params, body |-> body, rets |-> rets, prebound |-> Prebound(dv),
                                  indentBad |-> IndentBad(dv),
+                                 deadIf |-> (Has("dead_if_refused", dv) /\ DeadIf(body, ArgNames(rets))),
                                  opsetOK |-> (~Has("no_default_opset", dv) \/ HasCall(body))]
 RaisesAny(dv) == \E i \in 1..Len(g.items) : RaisesAt(g.items[i], dv)
 Export(dv) == IF RaisesAny(dv) THEN [err |-> "IndexError"]
@@ -524,14 +556,6 @@ Export(dv) == IF RaisesAny(dv) THEN [err |-> "IndexError"]
 ArgOK(a, defs) == CASE a.a = "var" -> a.n \in defs
                     [] a.a = "lit" -> Tok[a.tok].fin          \* nan / inf / -inf are read as names
                     [] OTHER -> TRUE
-RECURSIVE Assigned(_)
-Assigned(ss) == IF ss = <<>> THEN {} ELSE
-  LET s == Head(ss) IN
-  (CASE s.s \in {"call", "infix", "const", "attrconst"} -> {s.out}
-     [] s.s = "copy" -> {s.lhs}
-     [] s.s = "pcopy" -> SeqSet(s.lhss)
-     [] s.s = "if" -> Assigned(s.th) \cup Assigned(s.el)
-     [] s.s = "loop" -> Assigned(s.body)) \cup Assigned(Tail(ss))
 RECURSIVE Chk(_, _)
 \* Chk(stmts, defs) = <<ok, defs after>>
 ChkStmt(s, defs) ==
@@ -557,6 +581,7 @@ Chk(ss, defs) == IF ss = <<>> THEN <<TRUE, defs>>
                       IF ~h[1] THEN <<FALSE, defs>> ELSE Chk(Tail(ss), h[2])
 Convertible(p) ==
   /\ ~p.indentBad
+  /\ ~p.deadIf
   /\ Cardinality(SeqSet(p.params)) = Len(p.params)
   /\ p.opsetOK
   /\ LET c == Chk(p.body, SeqSet(p.params) \cup {q[1] : q \in p.prebound})
@@ -698,6 +723,7 @@ Guard(d) ==
     [] d = "no_default_opset" -> ~HasCall(Export({}).prog.body)
     [] d = "skip_init_indent" -> cfg.skip
     [] d = "init_double_rename" -> cfg.rename /\ g.inits # <<>>
+    [] d = "dead_if_refused" -> g.cf >= 1
     [] d = "attr_nonfinite_repr" -> \E i \in ex.constids : Tok[ex.tokof[i]].form = "f"
 Check ==
   /\ stage = "check"
